@@ -27,6 +27,14 @@ one-level summaries computed to a fixpoint over all units) plus Engine I (sa/int
   R13.9 end marker             token lists end in a TK_EOF element whose `next` is NULL: the successor of a token is dereferenced only where
                                the token is known not to be TK_EOF (kind test, successful equal() with a non-empty string, precondition
                                established by every caller, callee that diagnoses the marker) or after a null test.
+  R13.10 phase order           CR LF -> LF before line splicing before tokenizing.
+  R13.11 host division         an integer `/`, `%` of the compiler itself (or an argument handed to a parameter the callee divides by) whose divisor is a
+                               value of the input (derived: functions that can return Node.val / Token.val, transitively) is dominated by a fact that
+                               excludes 0; a signed division with both operands from the input excludes -1 too; such a value is not stored unchecked into
+                               a field the compiler divides by.  Divisors that are the compiler's own data (capacity, sizes, alignments) are listed, not judged.
+  R13.12 unevaluated text      the evaluators (recursive value functions over Node, derived) visit the right operand of && / || and the arms of ?: only
+                               under the matching outcome of a test of the controlling operand's value; the #elif arm hands its line to a function that
+                               reaches the evaluators only where the flag it sets when a group is taken is known to be false.
 
 Not implemented (stated, not claimed): error_at's pointer lies inside current_file->contents (R13.6, second clause);
 store_fp/store_gp call sites whose argument is MIN(8,size) / size-8 (R13.3, listed as not judged in the evidence);
@@ -205,11 +213,16 @@ def run(P, rep, tier):
                        'token lists are treated as ended by the TK_EOF element (successor NULL): the same guard-fact analysis, with kind facts from tests, from successful '
                        'equal() comparisons with non-empty strings and from preconditions that every caller establishes, proves each use of a successor; '
                        'gen_addr\'s conditional arms are compared with the type kinds the parser accepts as member bases; the line stamping of tokens is decided by the byte-loop analysis of C18. '
+                       'host divisions whose divisor comes from the constant-expression evaluators are proved guarded against 0 (and -1 for signed ones) by the same guard facts; '
+                       'the evaluators and the #elif arm are checked to leave alone what C leaves unevaluated (outcome of the controlling operand / group-taken flag remembered per path). '
                        'Not decided: termination, acceptance of all byte strings, recursion depth.')
     rep.assumptions += ['calloc/malloc/open_memstream succeed', 'every Node that reaches the code generator was typed by add_type and is not modified afterwards (typing relation injected into codegen.c)',
                         'a forced merge of analysis states (more than %d disjuncts, loop widening) makes disagreeing facts unknown, never may-be-NULL' % L.CAP, 'a callee does not reset an object field the caller has just tested (no alias kills); globals are killed only by direct writers',
                         'R13.9: the successor of the TK_EOF token is NULL; out-parameters (Token **rest) are not aliased; ' + '; '.join('%s() %s' % (f, why) for f, (m, why) in sorted(MARKER_MODELS.items()))
                         + '; ' + '; '.join('%s:%s %s' % (k[0], k[1], v) for k, v in sorted(CURSOR_COMPARE.items())),
+                        'R13.11: values of the input enter through ' + ', '.join('%s.%s (%s)' % (k[0], k[1], v) for k, v in sorted(INPUT_VALUE_FIELDS.items())) + '; a narrowing conversion does not turn a non-zero value into 0; '
+                        'divisors that are not values of the input (HashMap.capacity, Type.size, alignments) are invariants of the compiler\'s own data and are not judged',
+                        'R13.12: a test of a local that was initialised with an evaluator call and never assigned again is a test of that call; lazy operands are ' + '; '.join('%s: %s' % (k, ', '.join(sorted(v[1]))) for k, v in sorted(LAZY_OPERANDS.items())),
                         'facts established in other functions, each confirmed by reading: ' + '; '.join('%s:%s %s (%s)' % (k[0], k[1], k[2], v) for k, v in sorted(ASSUMED.items()))]
     W = _world(P)
     engs = L.solve(W)
@@ -1655,7 +1668,7 @@ def r1311(W, engs, rep):
             base = '%s:%s:%s%s:divisor=%s' % (un, f, (d['ctx'] + ':') if d['ctx'] else '', opname, shown)
             for x in fld:
                 divfields.setdefault(x, set()).add('%s:%s' % (un, f))
-            inp = d['src'] is not None and d['src'][0] == 'zero'
+            inp = d['src'] is not None and d['src'][0] in L.ZSRC
             if d['cls'] == 'zero' and d['path'] is None:
                 put(base + ':nonzero', False, '%s() divides by the constant 0 (`%s`)' % (f, d['node'].src()), where)
                 continue
@@ -1697,6 +1710,7 @@ def r1311(W, engs, rep):
         else:
             rep.ob('R13.11', key, ok, msg, where=where, facts=facts)
     rep.extra['host_division'] = {'input_valued_functions (derived)': {k: v[2] for k, v in sorted(W.zero_rets.items())},
+                                  'parameters_receiving_unchecked_input_values (derived)': {'%s#%d' % (f, i + 1): v[2] for (f, i), v in sorted(W.zero_params.items())},
                                   'parameters_divided_by (derived)': sorted('%s#%d' % (f, i + 1) for (f, i) in W.mustdiv),
                                   'fields_divided_by': sorted('%s.%s' % k for k in divfields),
                                   'divisors_not_judged (not a value of the input: invariants of the compiler\'s own data)': sorted(notjudged)}
